@@ -215,7 +215,7 @@ TolLoose == 1048576         \* 2^-20
 (*   v  = sequence of recorded components (1 for all methods but order1:   *)
 (*        value, d/dx, d/dy, d/dz).                                        *)
 (* Clauses (names as they appear in `failed`):                             *)
-(*   finite     every judged component is a finite number                  *)
+(*   finite     the value is a finite number (all methods but order1)      *)
 (*   formula    exact: value = documented sum                              *)
 (*   bounds     normalised methods: min <= value <= max of the values of   *)
 (*              the contributing sources                                   *)
@@ -237,7 +237,9 @@ MaySet(c, P, p, th) ==
 \* components judged: the value; for order1 also the gradient 1..dim
 NComp(c) == IF c.method = "order1" THEN c.dim + 1 ELSE 1
 
-ClauseFinite(c, v) == \A j \in 1..NComp(c) : IsNum(v[j])
+\* (order1 promises nothing where the moment matrix is not well conditioned:
+\* its components are judged by `linear` and `zero` only)
+ClauseFinite(c, v) == c.method # "order1" => IsNum(v[1])
 ClauseFormula(c, P, p, th, v) ==
     (c.exact /\ c.method # "order1") =>
         RecEq(v[1], PValue(c.method, P, p, th), TolExact)
@@ -382,9 +384,32 @@ ThresholdSig(x, k) ==
         \E j \in 1..Len(THOpts(x, k, i)) :
             BelowThreshold(x.cfg, Parts(x.steps[k].src), x.steps[k].pts[i],
                            THOpts(x, k, i)[j])
+(* C14-order1-3d-stale-rhs: SPHFirstOrderApproximation.initialize resets   *)
+(*   3 of the 4 entries of the right-hand side: in 3-D the last one keeps  *)
+(*   accumulating, so only the first evaluation after the point array was  *)
+(*   created (comp 0 of the first Interpolate since Reset / SetPoints) is  *)
+(*   unaffected.  The signature holds for an order1 step in 3-D provided   *)
+(*   that unaffected value, if this step has it, is right.                 *)
+FirstCompute(x, k) ==
+    \A j \in (LastSet(x, k) + 1)..(k - 1) : ~IStep(x, j)
+FirstValueOK(x, k) ==
+    LET s == x.steps[k]
+        P == Parts(s.src)
+    IN \A i \in 1..Len(s.pts) :
+         \E j \in 1..Len(THOpts(x, k, i)) :
+            LET t == THOpts(x, k, i)[j]
+            IN /\ LinearApplies(x.cfg, P, s.pts[i], t, s.lin) =>
+                     RecEqInt(s.res[i][1], LinComp(s.lin, s.pts[i], 0),
+                              TolLoose)
+               /\ MaySet(x.cfg, P, s.pts[i], t) = {} =>
+                     RecEqInt(s.res[i][1], 0, 0)
+StaleRhsSig(x, k) ==
+    /\ x.cfg.method = "order1" /\ x.cfg.dim = 3
+    /\ FirstCompute(x, k) => FirstValueOK(x, k)
 StepKnown(x, k) ==
     (IF OrderSig(x, k) THEN {"C14-array-order"} ELSE {})
     \cup (IF ThresholdSig(x, k) THEN {"C14-abs-weight-threshold"} ELSE {})
+    \cup (IF StaleRhsSig(x, k) THEN {"C14-order1-3d-stale-rhs"} ELSE {})
 
 \* steps with a violated clause: [k, failed, known]
 BadSteps(x) ==
